@@ -23,7 +23,7 @@ def stream_score(chk, i, rng):
     big = chk.tier == "thorough"
     nmax = 9 if (obj in ("mmd", "ws") and ovo) else (12 if not big else 16)
     n = int(rng.integers(1, nmax + 1))
-    K = int(rng.integers(2, 6))
+    K = int(rng.integers(2, 6)) if rng.integers(0, 10) else 1   # one case in ten: a single cluster
     mode = rng.choice(["soft", "mid", "sharp", "saturated"])
     P = gemlib.gen_P(rng, n, K, mode)
     A, akind = None, "none"
